@@ -10,6 +10,7 @@ import (
 	"os/exec"
 	"runtime/debug"
 	"strings"
+	"sync"
 	"syscall"
 	"time"
 )
@@ -22,6 +23,10 @@ var HangTimeout = 30 * time.Second
 type Hooks struct {
 	Run   RunFunc
 	Multi MultiFunc // nil if the multiReadCloser sub-leg could not be built
+	// Sched runs body as the one caller task of a simulation of the instrumented cmd/pql under the
+	// schedule derived from seed and reports how it ended ("", "deadlock", "budget", "stuck").
+	// nil except in the scheduled leg's binary.
+	Sched func(seed uint64, body func()) (kind, detail string)
 }
 
 // IsolateExec makes every execution happen in a process of its own (a child running this same test
@@ -165,6 +170,9 @@ func executeHere(h Hooks, c Case, log *EventLog) (out Outcome) {
 		in = h.Multi(rcs)
 	}
 	w := &recWriter{log: log}
+	var sinkMu sync.Mutex
+	var sink int
+	var sinkMsgs []string
 	done := make(chan struct{})
 	go func() {
 		defer close(done)
@@ -173,22 +181,37 @@ func executeHere(h Hooks, c Case, log *EventLog) (out Outcome) {
 				out.Panic = fmt.Sprintf("%v\n%s", p, debug.Stack())
 			}
 		}()
-		err := h.Run(context.Background(), w, in, func(e error) {
-			out.Sink++
-			msg := "<nil>"
-			if e != nil {
-				msg = e.Error()
+		runBody := func() {
+			defer func() {
+				if p := recover(); p != nil {
+					out.Panic = fmt.Sprintf("%v\n%s", p, debug.Stack())
+				}
+			}()
+			err := h.Run(context.Background(), w, in, func(e error) {
+				msg := "<nil>"
+				if e != nil {
+					msg = e.Error()
+				}
+				// (a tool with goroutines of its own may report from any of them, even after run returned)
+				sinkMu.Lock()
+				sink++
+				if len(sinkMsgs) < 8 {
+					sinkMsgs = append(sinkMsgs, msg)
+				}
+				sinkMu.Unlock()
+				log.Add("E %s", msg)
+			})
+			if err != nil {
+				out.RetErr = err.Error()
+				if out.RetErr == "" {
+					out.RetErr = "<empty error text>"
+				}
 			}
-			if len(out.SinkMsgs) < 8 {
-				out.SinkMsgs = append(out.SinkMsgs, msg)
-			}
-			log.Add("E %s", msg)
-		})
-		if err != nil {
-			out.RetErr = err.Error()
-			if out.RetErr == "" {
-				out.RetErr = "<empty error text>"
-			}
+		}
+		if c.Sched != 0 && h.Sched != nil {
+			out.SchedOutcome, out.SchedDetail = h.Sched(c.Sched, runBody)
+		} else {
+			runBody()
 		}
 	}()
 	timer := time.NewTimer(HangTimeout)
@@ -201,6 +224,9 @@ func executeHere(h Hooks, c Case, log *EventLog) (out Outcome) {
 		return Outcome{Hang: true}
 	}
 	out.Stdout, out.Writes = w.snapshot()
+	sinkMu.Lock()
+	out.Sink, out.SinkMsgs = sink, append([]string(nil), sinkMsgs...)
+	sinkMu.Unlock()
 	for _, r := range readers {
 		reads, extra, closes := r.counters()
 		out.Reads += reads
